@@ -163,10 +163,13 @@ class AddCyclicMemoryLayout(RewritePattern):
                 # increase current stride
                 current_stride = current_stride * layout_bound
 
-            # fill up empty strides
-            for stride in strides:
+            # fill up empty strides: dimensions that are not accessed by the
+            # schedule still need to be covered entirely by the layout
+            for dim, stride in enumerate(strides):
                 if not len(stride):
-                    stride.append(Stride(current_stride, 1))
+                    size = memref_type.get_shape()[dim]
+                    stride.append(Stride(current_stride, size))
+                    current_stride = current_stride * size
 
             layout = TiledStridedLayout([TiledStride(s) for s in strides]).canonicalize()
             tsl = TiledStridedLayoutAttr(layout)
